@@ -3,7 +3,7 @@
 From Coq Require Import List ZArith NArith Bool Arith String.
 Import ListNotations.
 From DD Require Import Base.Sx Base.PyStr Base.Value Diff.Tree Diff.DiffModel Diff.DiffShow.
-From DD Require Import Options.OptModel.
+From DD Require Import Options.OptModel Options.OptDtModel.
 Local Open Scope string_scope.
 
 Definition sx_ekind (e : ekind) : sx :=
@@ -40,3 +40,11 @@ Definition num_str_sx (d : N) (m : Z) (e : N) : sx := sx_str (num_str d (m, e)).
 Definition is_close_sx (m1 : Z) (e1 : N) (m2 : Z) (e2 : N) (me : Z) (ee : N) : sx :=
   sx_bool (is_close (m1, e1) (m2, e2) (me, ee)).
 Definition hatom_sx (F : opts) (a : atom) : sx := sx_str (hatomF F a).
+
+(* datetimes (atom level): the instant after datetime_normalize, and _diff_datetime's verdict *)
+Definition tunit_of (n : nat) : option tunit :=
+  match n with 1 => Some USecond | 2 => Some UMinute | 3 => Some UHour | 4 => Some UDay | _ => None end%nat.
+Definition dt_instant_sx (t : nat) (dtz : Z) (us : Z) (off : option Z) : sx :=
+  SZ (dt_instant (tunit_of t) dtz (mkDt us off)).
+Definition dt_changed_sx (t : nat) (dtz : Z) (us1 : Z) (off1 : option Z) (us2 : Z) (off2 : option Z) : sx :=
+  sx_bool (dt_changed (tunit_of t) dtz (mkDt us1 off1) (mkDt us2 off2)).
